@@ -140,6 +140,9 @@ func (x *Exec) eval(e *cfront.Node, st *State) []res {
 				out = append(out, res{r.st, x.castTo(r.st, r.v, ty)})
 			}
 		}
+		if e == x.keepCond {
+			return out
+		}
 		return x.mergeRes(out)
 	case "UnaryExprOrTypeTraitExpr":
 		ts := e.ArgType
@@ -648,7 +651,7 @@ func (x *Exec) store(st *State, p Val, size int64, v Val, e *cfront.Node) {
 			}
 		}
 		st.Writes[e.ID] = e
-		ev := Event{Kind: "pktstore", Node: e, Lbl: p.Lbl, Off: p.LblOff, Size: size, Val: v, Ptr: p, Looked: lookedKeys(st), Func: x.stack[len(x.stack)-1], NAtoms: len(st.Atoms)}
+		ev := Event{Kind: "pktstore", Node: e, Lbl: p.Lbl, Off: p.LblOff, Size: size, Val: v, Ptr: p, Looked: lookedKeys(st), Func: x.stack[len(x.stack)-1], Stack: append([]string(nil), x.stack...), NAtoms: len(st.Atoms)}
 		x.Events = append(x.Events, ev)
 		if x.Mode == Paths {
 			st.Trace = append(st.Trace, ev)
@@ -660,7 +663,7 @@ func (x *Exec) store(st *State, p Val, size int64, v Val, e *cfront.Node) {
 			x.havocRegion(st, p.Reg)
 		}
 		if p.Reg.Kind != RStack {
-			ev := Event{Kind: "mapstore", Node: e, Lbl: p.Lbl, Off: p.LblOff, Size: size, Val: v, Ptr: p, Map: strings.Join(p.Reg.Maps, "|"), NAtoms: len(st.Atoms), Func: x.stack[len(x.stack)-1]}
+			ev := Event{Kind: "mapstore", Node: e, Lbl: p.Lbl, Off: p.LblOff, Size: size, Val: v, Ptr: p, Map: strings.Join(p.Reg.Maps, "|"), NAtoms: len(st.Atoms), Func: x.stack[len(x.stack)-1], Stack: append([]string(nil), x.stack...)}
 			if p.Reg.Kind == RCtx {
 				ev.Kind = "ctxstore"
 			}
